@@ -481,3 +481,24 @@ def language_all_words(ctx):
         if bad:
             ctx.violate(q, 'only part of the sentence is counted: `%s = %s`' % (lp.iter.id, norm(d.value)), d.ast, 'a valid sentence whose first words also occur in another list is rejected with Unrecognised word')
     ctx.require(not any(isinstance(x, (ast.Break, ast.Return)) for x in ast.walk(lp)), q, 'the counting loop can stop before the last word', lp)
+
+
+@PROP.obligation('C14.word-separator', canaries=[
+    mut.replace_expr('mnemonic', 'Mnemonic.sanitize_mnemonic', "words.split(' ')", "words.split('\\u3000' if language == 'japanese' else ' ')", 'Japanese sentences split at the ideographic space after NFKD removed it'),
+])
+def word_separator(ctx):
+    """Every place of mnemonic.py that cuts a sentence into words does so at the plain space (split(' ') or split()): the sentence has
+    been NFKD-normalised before (normalize_string), which turns the ideographic space U+3000 of Japanese sentences - and every other
+    compatibility space - into U+0020, so any other separator finds nothing to split at and the whole sentence becomes one unknown word."""
+    m = ctx.repo.mod('mnemonic')
+    n = 0
+    for q, f in sorted(m.functions.items()):
+        for c in ast.walk(f):
+            if isinstance(c, ast.Call) and isinstance(c.func, ast.Attribute) and c.func.attr == 'split' and isinstance(c.func.value, ast.Name) and c.func.value.id in ('words', 'mnemonic', 'sentence'):
+                n += 1
+                ok = (not c.args and not c.keywords) or (len(c.args) == 1 and isinstance(c.args[0], ast.Constant) and c.args[0].value == ' ')
+                ctx.saw('mnemonic:%s: %s' % (q, norm(c)))
+                if not ok:
+                    ctx.violate('mnemonic:' + q, 'the sentence is cut into words by `%s`' % norm(c)[:90], c,
+                                'after NFKD normalisation the ideographic space is a plain space: every Japanese sentence is rejected with "Unrecognised word" (to_entropy, to_seed, sanitize_mnemonic)')
+    ctx.floor(n, 3, 'sentence splits')
